@@ -8,6 +8,7 @@ use crate::dirs::*;
 use crate::indep::{self, FileView, PackBody};
 use crate::proto::*;
 use crate::rng::Rng;
+use crate::util;
 use jubako as jbk;
 use jubako::creator::{BasicCreator, CachedContentAdder, ContentPackCreator};
 use serde_json::{json, Value};
@@ -88,7 +89,7 @@ pub fn gen_small(rng: &mut Rng, tier: Tier, pkg: Pkg, n_extra: usize, max_items:
     if n_items >= 2 {
         indexes.push(IndexDef { name: "files_tail".into(), store: 0, offset: 1, count: n_items as u32 - 1 });
     }
-    let dir = DirCase { seed: rng.next(), vstores: vec![indexed], stores: vec![files, misc], indexes, defer: 0 };
+    let dir = DirCase { seed: rng.next(), vstores: vec![indexed], stores: vec![files, misc], indexes, defer: 0, free: if rng.chance(1, 2) { rng.next() | 1 } else { 0 } };
     ContCase { content, dir, pkg, extra }
 }
 
@@ -100,6 +101,8 @@ pub struct CreatedCont {
     pub inst: Installed,
     /// every file produced (entry point first)
     pub files: Vec<PathBuf>,
+    /// made with the low-level creators (every free-data field chosen by the case) rather than BasicCreator
+    pub loose: bool,
 }
 
 /// Create the container in `dir` (file name `name`, e.g. "c.jbk").
@@ -132,7 +135,7 @@ pub fn create_container_ex(case: &ContCase, dir: &Path, name: &str, extras_dir: 
     for (i, ec) in case.extra.iter().enumerate() {
         let epath = camino::Utf8PathBuf::from_path_buf(extras_dir.join(format!("extra{}.jbkc", i + 2))).map_err(|_| "utf8")?;
         let out: Box<dyn jbk::creator::PackRecipient> = jbk::creator::AtomicOutFile::new(&epath).map_err(|e| format!("extra out: {e}"))?;
-        let mut c = ContentPackCreator::new_from_output(out, jbk::PackId::from(i as u16 + 2), vendor(), Default::default(), ec.comp.to_jbk()).map_err(|e| format!("extra new: {e}"))?;
+        let mut c = ContentPackCreator::new_from_output(out, jbk::PackId::from(i as u16 + 2), vendor(), pack_free(case.dir.free, &format!("content:{}", i + 2)).into(), ec.comp.to_jbk()).map_err(|e| format!("extra new: {e}"))?;
         let a = add_all(&mut c, ec, &inputs).map_err(|e| format!("extra add: {e}"))?;
         extra_addrs.push(a);
         extras.push(c);
@@ -146,7 +149,7 @@ pub fn create_container_ex(case: &ContCase, dir: &Path, name: &str, extras_dir: 
     let mut files: Vec<PathBuf> = after.difference(&before).cloned().collect();
     files.retain(|p| p.is_file());
     files.sort_by_key(|p| (*p != path, p.clone()));
-    Ok(CreatedCont { path, addrs, extra_addrs, inst, files })
+    Ok(CreatedCont { path, addrs, extra_addrs, inst, files, loose: false })
 }
 
 pub fn list_files(dir: &Path) -> std::collections::BTreeSet<PathBuf> {
@@ -213,12 +216,72 @@ pub fn compare_directory(case: &DirCase, models: &[Vec<EntryModel>], view: &File
             }
         }
     }
-    let mut got: Vec<(String, u32, u32, u32)> = indexes.iter().map(|i| (i.name.clone(), i.store, i.offset, i.count)).collect();
-    let mut exp: Vec<(String, u32, u32, u32)> = case.indexes.iter().map(|i| (i.name.clone(), i.store as u32, i.offset, i.count)).collect();
+    // (name, store, offset, count, declared key property, free data)
+    let mut got: Vec<(String, u32, u32, u32, u8, [u8; 4])> = indexes.iter().map(|i| (i.name.clone(), i.store, i.offset, i.count, i.key, i.free)).collect();
+    let mut exp: Vec<(String, u32, u32, u32, u8, [u8; 4])> = case.indexes.iter().map(|i| (i.name.clone(), i.store as u32, i.offset, i.count, index_key(case, i), index_free(case, &i.name))).collect();
     got.sort();
     exp.sort();
     if got != exp {
         diffs.push(format!("indexes decoded {got:?} != written {exp:?}"));
+    }
+    diffs
+}
+
+/// Free data recorded in the manifest for pack `id` by the low-level creation path: 0..40 bytes (empty without a seed).
+pub fn packinfo_free(seed: u64, id: u16) -> Vec<u8> {
+    if seed == 0 {
+        return vec![];
+    }
+    let n = free_bytes(seed, &format!("packinfo-len:{id}"), 1)[0] as usize % 41;
+    free_bytes(seed, &format!("packinfo:{id}"), n)
+}
+
+/// What the free-data fields of the packs must hold, as the independent decoder sees them: kind-specific header free
+/// data per pack and the per-pack free data of the manifest. `loose` = made by the low-level creators.
+pub fn compare_free(case: &ContCase, loose: bool, views: &[(PathBuf, FileView)]) -> Vec<String> {
+    let seed = case.dir.free;
+    let mut diffs = vec![];
+    // pack id by uuid, from the manifest
+    let mut id_of = std::collections::BTreeMap::new();
+    let mut infos = vec![];
+    for (_, v) in views {
+        if let Some(PackBody::Manifest { infos: i }) = v.manifest_pack().map(|p| &p.body) {
+            for x in i {
+                id_of.insert(x.uuid, (x.id, x.kind));
+            }
+            infos = i.clone();
+        }
+    }
+    let mut seen = 0;
+    for (p, v) in views {
+        for pack in &v.packs {
+            let expected: Vec<u8> = match pack.hdr.kind {
+                b'm' => if loose { pack_free(seed, "manifest").to_vec() } else { vec![0; 24] },
+                b'd' => if loose { pack_free(seed, "directory").to_vec() } else { vec![0; 24] },
+                b'c' => match id_of.get(&pack.hdr.uuid) {
+                    // BasicCreator makes pack 1 itself (default free data); the caller makes the extras
+                    Some((id, _)) if loose || *id >= 2 => pack_free(seed, &format!("content:{id}")).to_vec(),
+                    Some(_) => vec![0; 24],
+                    None => continue,
+                },
+                _ => continue,
+            };
+            seen += 1;
+            if pack.free != expected {
+                diffs.push(format!("{}: pack kind '{}' header free data decodes to {} but {} was given", p.file_name().unwrap().to_string_lossy(), pack.hdr.kind as char, util::brief(&pack.free), util::brief(&expected)));
+            }
+        }
+    }
+    for i in &infos {
+        let expected = if loose { packinfo_free(seed, i.id) } else { vec![] };
+        match &i.free {
+            Some(f) if *f == expected => {}
+            Some(f) => diffs.push(format!("manifest: free data of pack {} decodes to {} but {} was given", i.id, util::brief(f), util::brief(&expected))),
+            None => diffs.push(format!("manifest: free data of pack {} (value {}) cannot be decoded", i.id, i.free_data_id)),
+        }
+    }
+    if seen == 0 {
+        diffs.push("no pack header decoded".into());
     }
     diffs
 }
@@ -262,19 +325,22 @@ pub fn create_loose(case: &ContCase, dir: &Path, location: &dyn Fn(usize, &str) 
     for (pi, cc) in std::iter::once(&case.content).chain(case.extra.iter()).enumerate() {
         let fname = format!("pack{}.jbkc", pi + 1);
         let upath = camino::Utf8PathBuf::from_path_buf(dir.join(&fname)).map_err(|_| "utf8")?;
-        let mut c = ContentPackCreator::new(&upath, jbk::PackId::from(pi as u16 + 1), vendor(), Default::default(), cc.comp.to_jbk()).map_err(|e| format!("content new: {e}"))?;
+        let mut c = ContentPackCreator::new(&upath, jbk::PackId::from(pi as u16 + 1), vendor(), pack_free(case.dir.free, &format!("content:{}", pi + 1)).into(), cc.comp.to_jbk()).map_err(|e| format!("content new: {e}"))?;
         let addrs = add_all(&mut c, cc, &inputs).map_err(|e| format!("add_content: {e}"))?;
-        let (_f, data) = c.finalize().map_err(|e| format!("content finalize: {e}"))?;
+        let (_f, mut data) = c.finalize().map_err(|e| format!("content finalize: {e}"))?;
+        // the free data recorded for this pack in the manifest (any length)
+        data.free_data = packinfo_free(case.dir.free, pi as u16 + 1);
         pack_files.push((fname, data));
         all_addrs.push(addrs);
     }
-    let mut dcreator = DirectoryPackCreator::new(jbk::PackId::from(0), vendor(), Default::default());
+    let mut dcreator = DirectoryPackCreator::new(jbk::PackId::from(0), vendor(), pack_free(case.dir.free, "directory").into());
     let inst = install(&case.dir, build(&case.dir), &mut dcreator);
     let dname = "dir.jbkd".to_string();
     let mut dfile = std::fs::OpenOptions::new().read(true).write(true).create(true).truncate(true).open(dir.join(&dname)).map_err(|e| e.to_string())?;
-    let ddata = dcreator.finalize().map_err(|e| format!("dir finalize: {e}"))?.write(&mut dfile).map_err(|e| format!("dir write: {e}"))?;
+    let mut ddata = dcreator.finalize().map_err(|e| format!("dir finalize: {e}"))?.write(&mut dfile).map_err(|e| format!("dir write: {e}"))?;
+    ddata.free_data = packinfo_free(case.dir.free, 0);
     drop(dfile);
-    let mut m = ManifestPackCreator::new(vendor(), Default::default());
+    let mut m = ManifestPackCreator::new(vendor(), pack_free(case.dir.free, "manifest").into());
     m.add_pack(ddata, location(0, &dname));
     let mut names = vec![dname.clone()];
     // the content packs are recorded in the manifest in REVERSE id order (n, n-1, .., 1): lookups must go by pack id,
@@ -318,5 +384,5 @@ pub fn create_loose(case: &ContCase, dir: &Path, location: &dyn Fn(usize, &str) 
     }
     let mut it = all_addrs.into_iter();
     let addrs = it.next().unwrap_or_default();
-    Ok(CreatedCont { path, addrs, extra_addrs: it.collect(), inst, files })
+    Ok(CreatedCont { path, addrs, extra_addrs: it.collect(), inst, files, loose: true })
 }
